@@ -126,15 +126,19 @@ CLAIMED.update({
         text="ConcurrentInvocation.result is proved equal to the retry recurrence written from the property (recursive contract with a decreasing measure): number of "
              "body executions, retry counter, outcome class and payload. DistributedInvocation.run is proved to be one unfolding of the same recurrence per attempt "
              "(RETRY + counter + re-queue / result then SUCCESS / exception then FAILED), the body starting only after the activation's own RUNNING request. "
-             "Closed forms (max_retries+1, k, 1 executions) are lemmas. Nested calls/groups/direct tasks only in the bounded comparison.",
-        technique="contract-based deductive verification against a recursive spec function (body as oracle) + bounded sync/distributed comparison through the real thread runner",
+             "Closed forms (max_retries+1, k, 1 executions) are lemmas. The calls of a parallelized group are proved the same on both paths: prepare_arguments and "
+             "distribute_batch_calls against one specification of the j-th call (own parameters over the common ones, every position routed exactly once, in order). "
+             "Result collection, nested calls and direct tasks only in the bounded comparison, which lists one known finding (lazy sync group after a failing member).",
+        technique="contract-based deductive verification against a recursive spec function (body as oracle) and of the group construction functions + bounded sync/distributed comparison of scripted and group programs through the real thread runner",
     ),
     "C20": dict(
         category="other", design_ref="DESIGN.md §5 C20",
         text="Every GET route of the monitor (enumerated from the AST) is shown to reach only `reads` methods of the backends, effect classes being computed from the "
              "real Mem and SQLite implementations; queue_view, the one handler calling mutators, is checked against 'queue unchanged on every exit': proved when the "
-             "page covers the queue, two genuine defects (rotation, drop on a missing record) are listed as known findings with replays on the real monitor.",
-        technique="effect/frame analysis over the real ASTs + contract-based verification of queue_view over the C08 sequence contracts",
+             "page covers the queue, two genuine defects (rotation, drop on a missing record) are listed as known findings with replays on the real monitor. "
+             "The effect analysis follows field aliases and object-level calls (app, Task, Call, Invocation); a bounded stand-in reads out all backends around every GET "
+             "of the real monitor for generated parameters and states.",
+        technique="effect/frame analysis over the real ASTs + contract-based verification of queue_view over the C08 sequence contracts + bounded full read-out of the backends around every GET",
     ),
 })
 
@@ -159,8 +163,10 @@ CLAIMED.update({
         category="other", design_ref="DESIGN.md §5 C18",
         text="Proved: sequence numbers 1,2,3.. per operation and executor; the executor a task body gets belongs to the workflow of the CURRENT invocation, starts at "
              "position 0 for a new execution and is reused within one execution (the cache invariant that the unfixed code violated). Record-or-replay of the "
-             "dynamically typed operations is bounded (fresh executor over recorded data, two workflows, the same task for two workflows through the real runner).",
-        technique="contract-based deductive verification of the counter and the executor cache invariant + bounded record-or-replay runs on both backends",
+             "dynamically typed operations is bounded (fresh executor over recorded data, two workflows, the same task for two workflows through the real runner). "
+             "The record store: SQLite get/set_workflow_data proved as SQL glue under read and commit faults ('nothing recorded' only when the store returned no row); "
+             "the in-memory store by an ownership scan plus a bounded line-level preemption of one workflow's operation by another's.",
+        technique="contract-based deductive verification of the counter, the executor cache invariant, execute_task and the SQLite record-store glue + ownership scan + bounded record-or-replay and preemption runs",
     ),
 })
 
